@@ -265,3 +265,64 @@ package regattaserver
 //@   ensures [C06.cmd.dummy] err == nil && e.Type != 2 ==> cmd.Type == 2
 //@   ensures [C06.cmd.decode] err == nil && e.Type == 2 ==> cmd.Type == cmdKind(e.Cmd[1:])
 //@   modifies nothing
+
+// ---------------------------------------------------------------- the replication stream (C06)
+
+//@ import dragonboat "github.com/lni/dragonboat/v4"
+// the log reader behind the server answers with the contiguous run of the shard's log starting at the
+// requested index (this is the statement PROVED for logreader.Simple / Cached: C06.simple.run / C06.cached.run)
+//@ iface regattaserver.LogReaderService.QueryRaftLog
+//@   assumed
+//@   params lr, ctx, clusterID, logRange, maxSize
+//@   results es, err
+//@   ensures err == nil ==> run(es, clusterID, logRange.FirstIndex) && (len(es) > 0 ==> logRange.FirstIndex + uint64(len(es)) <= logRange.LastIndex)
+//@   modifies nothing
+//@ func table.(*ActiveTable).LocalIndex
+//@   assumed
+//@   results r, err
+//@   ensures err == nil ==> r != nil
+//@   modifies nothing
+//@ func regattapb.(*ReplicateRequest).GetTable
+//@   assumed
+//@   modifies nothing
+//@ iface regattapb.Log_ReplicateServer.Context
+//@   assumed
+//@   ensures result != nil
+//@   modifies nothing
+
+// the stream as the follower sees it: `expect` is the log index the next shipped command must carry
+//@ ghostfield any.expect uint64
+//@ pure func cmdsOf(m *regattapb.ReplicateResponse) []*regattapb.ReplicateCommand = asType(m.Response, *regattapb.ReplicateResponse_CommandsResponse).CommandsResponse.Commands
+//@ pure func isCmds(m *regattapb.ReplicateResponse) bool = typeIs(m.Response, *regattapb.ReplicateResponse_CommandsResponse) && asType(m.Response, *regattapb.ReplicateResponse_CommandsResponse) != nil && asType(m.Response, *regattapb.ReplicateResponse_CommandsResponse).CommandsResponse != nil
+//@ iface regattapb.Log_ReplicateServer.Send
+//@   assumed
+//@   params st, m
+//@   results err
+//@   requires m != nil
+//@   requires [C06.stream.contig] isCmds(m) ==> forall j int :: 0 <= j && j < len(cmdsOf(m)) ==> cmdsOf(m)[j] != nil && cmdsOf(m)[j].LeaderIndex == st.expect + uint64(j) && cmdsOf(m)[j].Command != nil && cmdsOf(m)[j].Command.LeaderIndex != nil && *cmdsOf(m)[j].Command.LeaderIndex == cmdsOf(m)[j].LeaderIndex
+//@   ensures err == nil && isCmds(m) ==> st.expect == old(st.expect) + uint64(len(cmdsOf(m)))
+//@   ensures !(err == nil && isCmds(m)) ==> st.expect == old(st.expect)
+//@   modifies st.expect
+
+// the two canned error answers are built once by errorResponseFactory (verified below); that the
+// package variables hold its results is a fact of the package initialiser (assumed)
+//@ func errorResponseFactory
+//@   ensures result != nil && fresh(result) && typeIs(result.Response, *regattapb.ReplicateResponse_ErrorResponse)
+//@   modifies nothing
+//@ initfact repErrUseSnapshot : repErrUseSnapshot != nil && typeIs(repErrUseSnapshot.Response, *regattapb.ReplicateResponse_ErrorResponse)
+//@ initfact repErrLeaderBehind : repErrLeaderBehind != nil && typeIs(repErrLeaderBehind.Response, *regattapb.ReplicateResponse_ErrorResponse)
+
+// Replicate: the commands shipped on one stream are the entries of the leader's log from the requested
+// index on, without gap, duplicate or reordering (precondition of every Send), each carrying its own
+// log index twice (message field and command field); the next query starts right after the last
+// shipped entry.
+//@ func (*LogServer).Replicate
+//@   maypanic
+//@   requires l != nil && l.Tables != nil && l.LogReader != nil && l.Log != nil && req != nil && server != nil
+//@   requires [fresh.stream] server.expect == req.LeaderIndex
+//@   requires [raft] forall s uint64, i uint64 :: logAt(s, i).Type == 2 ==> len(logAt(s, i).Cmd) >= 1
+//@   modifies server.expect, world.clock
+//@   loop 0 invariant l.Tables == old(l.Tables) && l.LogReader == old(l.LogReader) && l.Log == old(l.Log) && ctx != nil
+//@   loop 0 invariant [C06.stream.next] logRange.FirstIndex == server.expect && logRange.FirstIndex <= logRange.LastIndex
+//@   loop 1 invariant -1 <= rangeindex && rangeindex < len(entries) && len(commands) == rangeindex + 1 && fresh(commands) && logRange.FirstIndex == server.expect
+//@   loop 1 invariant forall j int :: 0 <= j && j <= rangeindex ==> commands[j] != nil && commands[j].LeaderIndex == entries[j].Index && commands[j].Command != nil && commands[j].Command.LeaderIndex != nil && *commands[j].Command.LeaderIndex == entries[j].Index
